@@ -32,7 +32,10 @@ RULE = (
     "md5-dos2unix store with LF/CRLF twin contents (one cached, one an uncached edit), an optional "
     "pre-step that stages the workspace through the same State (dry-run build) on a harness-owned "
     "LocalFileSystem subclass which lets the user save uncached content into an already-read file "
-    "of the batch (before State.save_many runs; deterministic, no threads), "
+    "of the batch (before State.save_many runs; deterministic, no threads), two shaped arms "
+    "(several same-directory target files behind a dangling symlink with siblings deleted and "
+    "uncached edits on several others; a target object verified by an earlier checkout of the same "
+    "store and dropped afterwards while a second copy of its bytes sits at another path), "
     "optionally target objects dropped from the cache, configured link types, relink on/off, state "
     "on/off and prompt None / always-decline (plus a small accepting arm that only checks that no "
     "PromptError is raised), force=False. Oracle: byte snapshots of the workspace before/after; every "
@@ -103,6 +106,14 @@ def _edit():
         st.fixed_dictionaries({"op": st.just("d2f"), "d": i, "c": c}),
         st.fixed_dictionaries({"op": st.just("mkdir"), "d": i, "name": gen.names()}),
     )
+
+
+def _leaves(tree):
+    for v in tree.values():
+        if isinstance(v, dict):
+            yield from _leaves(v)
+        else:
+            yield v
 
 
 def _has_batch(tree):
@@ -208,6 +219,28 @@ def cases(draw):
         case["edits"] = edits
         case["dangling"] = [{"d": 0, "name": draw(st.sampled_from(["broken", "~link", "zz"]))}]
         case["shape"] = "siblings-behind-dangling-symlink"
+    elif target_kind == "tree" and draw(st.sampled_from([False] * 6 + [True])):
+        # a target object that an earlier checkout (same store) verified is dropped from the cache
+        # afterwards, while the user keeps a second copy of those bytes at an extra / other path
+        flat = gen.flatten_case(case["target"])
+        keys = sorted(flat)
+        x = flat[keys[draw(st.integers(0, len(keys) - 1))]]
+        xs = next(v for v in _leaves(case["target"]) if gen.content_bytes(v) == x)
+        toids = sorted({md5(b) for b in flat.values()})
+        case["prior"] = "checkout"
+        case["prior_types"] = draw(st.sampled_from([["copy"], ["hardlink"], ["reflink", "copy"]]))
+        case["root_file"] = None
+        case["dangling"] = []
+        case["legacy_hashed"] = False
+        case["palette"] = case["palette"][:6] + [["uncached", xs]]
+        k = len(case["palette"]) - 1
+        case["edits"] = case["edits"][:2] + [draw(st.sampled_from([
+            {"op": "add", "d": draw(st.integers(0, 11)), "name": "copy-of-x", "c": k},
+            {"op": "add", "d": draw(st.integers(0, 11)), "name": "copy-of-x", "c": k},
+            {"op": "modify", "i": draw(st.integers(0, 11)), "c": k},
+        ]))]
+        case["drop"] = [toids.index(md5(x))]
+        case["shape"] = "verified-object-dropped-later"
     return case
 
 
